@@ -99,7 +99,13 @@ def run_p(report: Report, prop: str, tier: str, targets: Optional[List[str]] = N
         nonlocal budget
         # only the signature of a busy machine (a few undecided obligations) is retried; a function
         # with many undischarged obligations has changed
-        again = [t for t, r in res.items() if undecided(r) and sum(1 for v in r["verdicts"] if v["status"] != "discharged" and v["kind"] != "vacuity") <= 3]
+        again = [
+            t
+            for t, r in res.items()
+            if undecided(r)
+            and not any(v["status"] == "skipped" for v in r["verdicts"])
+            and sum(1 for v in r["verdicts"] if v["status"] != "discharged" and v["kind"] != "vacuity") <= 2
+        ]
         if not again:
             return False
         b0 = budget
